@@ -281,7 +281,18 @@ func c24GenInbound(rt *rapid.T) *hist.Case {
 	T := pick(rt, "server-tam", []uint16{0, 2, 2, 65535})
 	c.Cfg.TopicAliasMaximum = &T
 	topics := []string{"i/a", "i/b", "i/c"}
-	pconn := hist.Action{Kind: "connect", Client: 0, Version: 5, Clean: true, AutoAck: true}
+	// the publisher's session is persistent in half of the histories, so that reconnects resume or take over the
+	// session (seeded change C24-e: the inbound table inherited with the session); the table is still per connection
+	pexp := uint32(1000)
+	persistent := rapid.Bool().Draw(rt, "publisher-persistent")
+	pconnOf := func(clean bool) hist.Action {
+		a := hist.Action{Kind: "connect", Client: 0, Version: 5, Clean: clean, AutoAck: true}
+		if persistent {
+			a.Expiry = &pexp
+		}
+		return a
+	}
+	pconn := pconnOf(true)
 	c.Actions = append(c.Actions, hist.Action{Kind: "connect", Client: 1, Version: 4, Clean: true, AutoAck: true},
 		hist.Action{Kind: "subscribe", Client: 1, Filters: []refmqtt.Filter{{Filter: "#", QoS: 2}}}, pconn)
 	action := rapid.Custom(func(rt *rapid.T) hist.Action {
@@ -293,7 +304,7 @@ func c24GenInbound(rt *rapid.T) *hist.Case {
 		case 7: // plain
 			return hist.Action{Kind: "publish", Client: 0, Topic: pick(rt, "topic", topics), QoS: byte(rapid.IntRange(0, 1).Draw(rt, "q")), Retain: rapid.IntRange(0, 2).Draw(rt, "retain") == 0}
 		case 8:
-			return pconn
+			return pconnOf(!persistent || rapid.IntRange(0, 3).Draw(rt, "clean") == 0)
 		default:
 			return hist.Action{Kind: "drop", Client: 0}
 		}
@@ -305,7 +316,7 @@ func c24GenInbound(rt *rapid.T) *hist.Case {
 }
 
 func TestC24(t *testing.T) {
-	r := evid.New("C24", "rapid, two classes. Outbound: a v5 subscriber with Topic Alias Maximum 0/1/2/5 (fewer aliases than topics), Receive Maximum absent/1/2, Maximum Packet Size absent/40, server write queue default/1/2/4; publishes and bursts on 4 topics (QoS 0-2, padded beyond the packet size limit), manual and automatic acknowledgement, drops / disconnects / reconnects with session present while messages are queued. Oracle on every PUBLISH of every connection: topic non-empty, or an alias bound by an earlier PUBLISH on the same connection to the topic the message was published on; alias <= client maximum, none with maximum 0. Inbound: server Topic Alias Maximum 0/2/65535; a v5 publisher binds, rebinds, sends alias-only publishes with bound / unbound / too-large aliases (QoS 0-2, retain), reconnects; an observer on '#' and a late retained-store reader. Oracle: alias above the server maximum -> not routed, not retained, DISCONNECT 0x94 / closed; unbound alias with empty topic -> not routed, not retained; otherwise delivered on the topic last bound on that connection; tables do not survive reconnection. Non-trivial = an alias-only PUBLISH was observed outbound or sent inbound; distinct by (history, position)")
+	r := evid.New("C24", "rapid, two classes. Outbound: a v5 subscriber with Topic Alias Maximum 0/1/2/5 (fewer aliases than topics), Receive Maximum absent/1/2, Maximum Packet Size absent/40, server write queue default/1/2/4; publishes and bursts on 4 topics (QoS 0-2, padded beyond the packet size limit), manual and automatic acknowledgement, drops / disconnects / reconnects with session present while messages are queued. Oracle on every PUBLISH of every connection: topic non-empty, or an alias bound by an earlier PUBLISH on the same connection to the topic the message was published on; alias <= client maximum, none with maximum 0. Inbound: server Topic Alias Maximum 0/2/65535; a v5 publisher binds, rebinds, sends alias-only publishes with bound / unbound / too-large aliases (QoS 0-2, retain), reconnects; an observer on '#' and a late retained-store reader. Oracle: alias above the server maximum -> not routed, not retained, DISCONNECT 0x94 / closed; unbound alias with empty topic -> not routed, not retained; otherwise delivered on the topic last bound on that connection; tables do not survive reconnection, resumed or taken-over sessions included (the publisher's session is persistent in half of the histories). Non-trivial = an alias-only PUBLISH was observed outbound or sent inbound; distinct by (history, position)")
 	defer r.Finish(t)
 	if evid.ReplayMode() {
 		evid.Replay(t, r, replayPath(), c24Check)
